@@ -20,7 +20,8 @@ From Dials Require Export Sources.FileWatch.
 Import ListNotations.
 Open Scope N_scope.
 
-Inductive opkind := OStart | ORewrite | OTrunc | ORename | OK8s | OLink | ODelete | OReload | ODir | ORmParent.
+Inductive opkind := OStart | ORewrite | OTrunc | ORename | OK8s | OLink | ODelete | OReload | ODir | ORmParent
+                  | ORewriteM | ORewrite2 | OOverflow.
 
 Record qstep := mkStep {
   q_op : opkind;
@@ -31,6 +32,7 @@ Record qstep := mkStep {
   q_dead : list N;             (* config inodes destroyed by the operation *)
   q_gone : list path;          (* directories removed by the operation *)
   q_transient : bool;          (* the operation passes through an empty file *)
+  q_mid : option N;            (* a content that was in the file for an instant (two rewrites back to back) *)
   q_events : list path;        (* event names the loop received *)
   q_watches : list path;       (* implementation: fsnotify WatchList *)
   q_nvals : N;                 (* implementation: values reported so far (incl. the initial one) *)
@@ -92,7 +94,7 @@ Definition step_agrees (st0 st : lstate) (prev s : qstep) : bool :=
   let prev_bad := match q_read prev with
                   | Content c => match decode c with None => true | Some _ => false end
                   | IOErr => true | NotExist => false end in
-  let exp_lasterr := if newval then false else if 0 <? dm then true else q_lasterr prev in
+  let exp_lasterr := if newval || (0 <? dm) then last_is_error (st_reports st) else q_lasterr prev in
   set_eqb (q_watches s) (st_watches st)
   && (q_nvals s =? n_values (st_reports st))
   && optN_eqb (q_last s) (view_val st)
@@ -108,16 +110,29 @@ Definition step_agrees (st0 st : lstate) (prev s : qstep) : bool :=
    truth only: converged to decode(final) / stays at the last good value with
    the error reported / not-exist tolerated; identical content gives no new
    version *)
+(* the view did not move - or it moved to the content that was in the file for
+   an instant (two rewrites back to back), which is then the last good one *)
+Definition kept (prev s : qstep) : bool :=
+  (optN_eqb (q_last s) (q_last prev) && (q_nvals s =? q_nvals prev))
+  || match q_mid s with
+     | Some m => match decode m with
+                 | Some v => optN_eqb (q_last s) (Some v) && (q_nvals s <=? q_nvals prev + 1)
+                 | None => false
+                 end
+     | None => false
+     end.
+
 Definition step_property (good : option N) (prev s : qstep) : bool :=
   match q_read s with
   | Content c =>
       match decode c with
       | Some v => optN_eqb (q_last s) (Some v)
-                  && implb (optN_eqb good (Some c)) (q_nvals s =? q_nvals prev)
-      | None => q_lasterr s && optN_eqb (q_last s) (q_last prev) && (q_nvals s =? q_nvals prev)
+                  && implb (optN_eqb good (Some c) && match q_mid s with None => true | Some _ => false end)
+                           (q_nvals s =? q_nvals prev)
+      | None => q_lasterr s && kept prev s
       end
-  | IOErr => q_lasterr s && optN_eqb (q_last s) (q_last prev) && (q_nvals s =? q_nvals prev)
-  | NotExist => optN_eqb (q_last s) (q_last prev) && (q_nvals s =? q_nvals prev)
+  | IOErr => q_lasterr s && kept prev s
+  | NotExist => kept prev s
   end.
 
 (* A reader that resolves the config path while the operation replaces the
@@ -144,7 +159,11 @@ Definition with_move_self (cfg : path) (o : opkind) (before : lstate) (r : lstat
   if by_rename o && negb (st_watching before) && st_watching n
   then [(n, w); (drop cfg cfg n, w)] else [(n, w)].
 
-(* Third: open/read failures other than not-exist that the source reported
+(* Fourth (below, via_mid): an operation that rewrites the file twice back to
+   back leaves its first content readable for an instant: one transient read of
+   it is a candidate.
+
+   Third: open/read failures other than not-exist that the source reported
    without a decoder being involved are transient IOErr reads of the
    environment; the model is fed as many of them as the harness counted. *)
 Fixpoint io_transients (cfg : path) (k : nat) (st : lstate) : lstate :=
@@ -156,6 +175,11 @@ Fixpoint io_transients (cfg : path) (k : nat) (st : lstate) : lstate :=
 Definition successors (cfg : path) (prev : qstep) (c : lstate * N) (s : qstep) : list (lstate * lstate * N) :=
   let '(st00, wino) := c in
   let st := io_transients cfg (N.to_nat (q_nio s - q_nio prev)) st00 in
+  let via_mid := match q_mid s with
+                 | Some c' => [m_step cfg (mkFs (Content c') (q_resolved s) (q_linkres s) true true []) st (IEvent cfg)]
+                 | None => []
+                 end in
+  flat_map (fun st =>
   let tag := map (fun r : lstate * N => (st00, fst r, snd r)) in
   let normal := tag (with_move_self cfg (q_op s) st (model_step cfg st wino s)) in
   let through_notexist := match q_dead s, q_op s with
@@ -166,7 +190,7 @@ Definition successors (cfg : path) (prev : qstep) (c : lstate * N) (s : qstep) :
   if through_notexist
   then let st' := transient_notexist cfg st in
        normal ++ tag (with_move_self cfg (q_op s) st' (model_step cfg st' wino s))
-  else normal.
+  else normal) (st :: via_mid).
 
 (* bits: 1 = some step differs from the model, 2 = the property fails on some
    step, 4 = at the first property failure the model's watch-set invariant
@@ -192,7 +216,7 @@ Fixpoint walk (cfg : path) (cands : list (lstate * N)) (good : option N) (prev :
 
 (* what dials.Config's initial Source.Value() saw *)
 Definition first_step (r0 : path) : qstep :=
-  mkStep OStart (Content 0) (Some r0) None 1 [] [] false [] [] 1 0 0 (Some 0) false.
+  mkStep OStart (Content 0) (Some r0) None 1 [] [] false None [] [] 1 0 0 (Some 0) false.
 
 (* verdict codes: 0 pass; 1 implementation <> model though the property holds;
    3 the property fails; 11 the property fails, implementation = model, and the
